@@ -57,6 +57,11 @@ THEOREMS = [
     'Nb.C04.gen_xform_codes_ok',
     'Nb.C04.analyze_roundtrip_zooms',
     'Nb.C04.gen_thresholds_ok',
+    'Nb.C04.skeletons_agree',
+    'Nb.C04.best_affine_skeleton',
+    'Nb.C04.update_header_skeleton',
+    'Nb.C04.spm_write_skeleton',
+    'Nb.C04.spm_read_skeleton',
 ]
 ASSUMPTIONS = [
     'hand-written Lean model (Model/C04.lean) of nifti1 get_best_affine/set_sform/get_sform/set_qform/get_qform, '
@@ -77,6 +82,12 @@ ASSUMPTIONS = [
     'evaluates them exactly) — their error is covered by the oracle tolerances only',
     'header.default_x_flip is modelled for Analyze / SPM (three moments: construction, save, loading class); for '
     'NIfTI it is generated only where a coded sform / qform makes it irrelevant (oracle only, no model line)',
+    'decision skeletons: the bodies of Nifti1Header.get_best_affine, SpatialImage.update_header, '
+    'Spm99AnalyzeImage.to_file_map / from_file_map are regenerated from the AST as verbatim statement trees; the table '
+    'Model/C04.lean `atomTable` (Python statement text -> meaning) and the evaluators evalBest / evalUpdate / evalWrite / '
+    'evalRead are hand-written and trusted to say what each statement does (checked against the code by the rt streams)',
+    'conversion routes (from_image, nib.save to another extension) and save histories are oracle-only / model-line-'
+    'unchanged dimensions: the model says history does not matter',
     'cross-class header conversion (AnalyzeHeader.from_header) is modelled for the affine-carrying fields only '
     '(NHdr.convertN, NHdr.ofZooms, AHdr.ofZooms, clipZooms), tied by the exact-xclass / n2-f64 / general-sform-code '
     'streams',
@@ -91,7 +102,12 @@ RULE = ('exact stream: affines = (signed permutation or small integer matrix) x 
         'contents {mat+M, M only, mat only, 4x4xN mat, none}; NIfTI-2 stream of affines float32 cannot hold; '
         'general stream: random rotations (incl. exact and near 180 deg) x '
         'zooms 1e-6..1e6 x reflection x shear x translations up to 1e7, with header qform variants; component '
-        'streams for float32 rounding, quat2mat, mat2quat, shape_zoom_affine. A case is non-trivial when the '
+        'streams for float32 rounding, quat2mat, mat2quat, shape_zoom_affine. PHASE 3b: zoom magnitudes 2^-20..2^20 '
+        '(all tiny / all huge / mixed) in the exact streams and 1e-6..1e5 triples in the general ones; general-xclass: '
+        '9 NIfTI flavour pairs x 35 (sform, qform) code pairs x handedness x route (header= / from_image / nib.save to '
+        'the other extension) with the affine in the slot get_best_affine selects; general-xfamily: from_image / '
+        'nib.save across format families; +hist: the same cases saved over earlier images (other class of the extension '
+        'family, other affine, with / without .mat) on the same REAL file names. A case is non-trivial when the '
         'affine is not the identity; distinct by (class, shape, affine, header spec incl. source class and byte order, mat mode, x-flip configuration).')
 
 CLASSES = ['N1', 'N1P', 'N2', 'AN', 'S99', 'S2', 'MGH']
@@ -101,6 +117,8 @@ SPM = ('S99', 'S2')
 SIG_ALLCLOSE = 'update_header:allclose-keeps-header-affine'
 SIG_SPM = 'spm-mat:translation-ulp'
 SIG_DEFAULT = 'update_header:allclose-keeps-default-header'
+SIG_N1N2 = 'nifti1-to-nifti2:float32-quaternion-refused'
+_T9 = [-7 / 9, 4 / 9, 4 / 9, 0.0, 4 / 9, -1 / 9, 8 / 9, 0.0, 4 / 9, 8 / 9, -1 / 9, 0.0]     # 180 deg about (1, 2, 2)/3
 
 PENDING_FINDINGS = [
     {'property': 'C04', 'signature': SIG_ALLCLOSE, 'status': 'open',
@@ -125,6 +143,15 @@ PENDING_FINDINGS = [
      'input': {'op': 'rt', 'cls': 'AN', 'shape': [3, 4, 5],
                'A': [-1.0000038146972656, 0.0, 0.0, 1.0000038146972656, 0.0, 1.0, 0.0, -1.5, 0.0, 0.0, 1.0, -2.0],
                'hdr': None, 'mat': 'both', 'stream': 'finding', 'exact': True, 'line': True}},
+    {'property': 'C04', 'signature': SIG_N1N2, 'status': 'open',
+     'what': 'a NIfTI-1 (float32) header whose coded qform is a rotation by (nearly) 180 degrees, converted for a '
+             'NIfTI-2 image (Nifti2Image(data, affine, nifti1_header), Nifti2Image.from_image(nifti1_img)): the float32 '
+             'quaternion has b^2+c^2+d^2 = 1 + O(1e-8), which the NIfTI-2 threshold (3 * float64 eps) refuses: '
+             "get_qform() raises ValueError('w2 should be positive') on the converted / saved / reloaded image for about "
+             'half of all 180 degree rotations (and the constructor itself raises when the sform code is 0)',
+     'input': {'op': 'rt', 'cls': 'N2', 'shape': [2, 3, 4], 'A': _T9,
+               'hdr': {'q': [1, _T9], 's': [2, _T9], 'from': 'N1'},
+               'mat': 'both', 'stream': 'finding', 'exact': False, 'line': False}},
 ]
 
 
@@ -208,22 +235,32 @@ def fmt_hdr(cls, h):
     return 'z=' + ','.join(fr(v) for v in h['z']) + ';o=' + ','.join(str(int(v)) for v in h['o'])
 
 
-def mk_rt(cls, shape, a12, hdr=None, mat='both', stream='exact', exact=True, line=True, fl='TTT', flhow='sub'):
-    """fl: header.default_x_flip (T/F) at construction, at save, on the loading class; flhow: how a non-default
+def mk_rt(cls, shape, a12, hdr=None, mat='both', stream='exact', exact=True, line=True, fl='TTT', flhow='sub',
+          route='ctor', hist=None):
+    """route: how the image that is saved comes about: 'ctor' = `Klass(data, A, header)`; 'from_image' = an image of the
+    header's class (`from`) holding A is converted with `Klass.from_image`; 'save_ext' = that image is handed to
+    `nib.save` under the file extension of `cls` (real files).  hist: earlier images `[cls0, shape0, A0]` saved to the
+    SAME file names before the image under test (real files) — the model line does not mention it: history must
+    not matter.  fl: header.default_x_flip (T/F) at construction, at save, on the loading class; flhow: how a non-default
     flag is brought about ('sub' = header/image subclasses + instance attribute, 'patch' = class attribute)"""
     a12 = [float(v) for v in a12]
     if cls == 'MGH':
         fl = 'TTT'
     data = {'op': 'rt', 'cls': cls, 'shape': [int(s) for s in shape], 'A': a12, 'hdr': hdr, 'mat': mat,
             'stream': stream, 'exact': bool(exact), 'line': bool(line), 'fl': fl, 'flhow': flhow}
+    if route != 'ctor':
+        data['route'] = route
+    if hist:
+        data['hist'] = [[c0, [int(v) for v in s0], [float(v) for v in a0]] for c0, s0, a0 in hist]
     ln = None
-    # the NIfTI flows are modelled for the default flag only
-    if line and not (cls in NIFTI and fl != 'TTT'):
+    # the NIfTI flows are modelled for the default flag only; conversion routes are oracle-only
+    if line and route == 'ctor' and not (cls in NIFTI and fl != 'TTT'):
         ln = f'C04 rt {cls} ' + ','.join(str(int(s)) for s in shape) + ' ' + fmt_aff12(a12) + ' ' + \
              fmt_hdr(cls, hdr) + ' ' + mat + ' ' + fl
     ident = a12 == [1.0, 0, 0, 0, 0, 1.0, 0, 0, 0, 0, 1.0, 0]
     end = '' if hdr is None else hdr.get('end', '')
-    key = None if ident else (cls, tuple(shape), tuple(a12), fmt_hdr(cls, hdr) + end, mat, fl, flhow)
+    key = None if ident else (cls, tuple(shape), tuple(a12), fmt_hdr(cls, hdr) + end, mat, fl, flhow, route,
+                              repr(data.get('hist')))
     return Case(ln, data, key, stream)
 
 
@@ -250,7 +287,8 @@ def mk_comp(op, args, stream, line=True):
 def case_from_data(d):
     if d['op'] == 'rt':
         return mk_rt(d['cls'], d['shape'], d['A'], d.get('hdr'), d.get('mat', 'both'), d.get('stream', 'exact'),
-                     d.get('exact', False), d.get('line', False), d.get('fl', 'TTT'), d.get('flhow', 'sub'))
+                     d.get('exact', False), d.get('line', False), d.get('fl', 'TTT'), d.get('flhow', 'sub'),
+                     d.get('route', 'ctor'), d.get('hist'))
     return mk_comp(d['op'], d['args'], d.get('stream', d['op']), d.get('line', True))
 
 
@@ -326,13 +364,44 @@ def flips_of(d):
     return tuple(c == 'T' for c in d.get('fl', 'TTT'))
 
 
-def roundtrip(cls, shape, A, hspec, mat, fl=(True, True, True), flhow='sub', ex=None):
+FILE_EXT = {'N1': '.nii', 'N2': '.nii', 'N1P': '.img', 'AN': '.img', 'S99': '.img', 'S2': '.img', 'MGH': '.mgh'}
+
+
+def _edit_mat(mat, raw):
+    """the `.mat` file contents for the non-default `.mat` modes, from what nibabel wrote (`raw` bytes)"""
+    if mat == 'none':
+        return b''
+    import scipy.io as sio
+    mats = sio.loadmat(io.BytesIO(raw))
+    out = io.BytesIO()
+    if mat == 'monly':
+        sio.savemat(out, {'M': mats['M']}, format='4')
+    elif mat == 'matonly':
+        sio.savemat(out, {'mat': mats['mat']}, format='4')
+    elif mat == 'mat3d':
+        stack = np.stack([mats['mat'], mats['mat'] * 2.0 + 1.0], axis=2)
+        sio.savemat(out, {'mat': stack, 'M': mats['M']}, format='5')
+    else:
+        raise ValueError(mat)
+    return out.getvalue()
+
+
+def roundtrip(cls, shape, A, hspec, mat, fl=(True, True, True), flhow='sub', ex=None, route='ctor', hist=None):
+    import nibabel as nib
     fi, fs, fload = fl
     patch = flhow == 'patch' and fl == (False, False, False) and cls != 'MGH'
     Ki = flip_class(cls, fi or patch)
     Kl = flip_class(cls, fload or patch)
     with _patched_flip(_nib()[cls].header_class, patch):
-        hdr = build_header(cls, shape, hspec, Ki)
+        if route == 'ctor':
+            hdr = build_header(cls, shape, hspec, Ki)
+            img0 = None
+        else:
+            # an image of the header's own class holding A, converted afterwards
+            src = hdr_src(cls, hspec)
+            own = None if hspec is None else {k: v for k, v in hspec.items() if k != 'from'}
+            img0 = _nib()[src](np.zeros(shape, dtype=np.int16), A, build_header(src, shape, own))
+            hdr = img0.header
         if hdr is not None and ex is not None:
             # the supplied header as the image class sees it (converted when of another class), and its affine
             # under the flag in force at construction / save / load
@@ -345,31 +414,39 @@ def roundtrip(cls, shape, A, hspec, mat, fl=(True, True, True), flhow='sub', ex=
                     seen.default_x_flip = f
                 ex['hdr_best_f'][f] = np.array(seen.get_best_affine(), dtype=np.float64)
             ex['hdr_best'] = ex['hdr_best_f'][fi]
-        img = Ki(np.zeros(shape, dtype=np.int16), A, hdr)
+        if route == 'ctor':
+            img = Ki(np.zeros(shape, dtype=np.int16), A, hdr)
+        elif route == 'from_image':
+            img = Ki.from_image(img0)
+        else:
+            img = img0
         if fs != fi:
             img.header.default_x_flip = fs          # instance attribute set between construction and save
+        if hist or route == 'save_ext':
+            # real files: earlier images saved to the same names, then the image under test
+            import tempfile
+            with tempfile.TemporaryDirectory(prefix='c04_') as td:
+                path = os.path.join(td, 'x' + FILE_EXT[cls])
+                for c0, s0, a0 in (hist or []):
+                    nib.save(_nib()[c0](np.zeros(tuple(s0), dtype=np.int16), mat_of(a0)), path)
+                if route == 'save_ext':
+                    nib.save(img, path)
+                else:
+                    img.to_filename(path)
+                if cls in SPM and mat != 'both':
+                    mp = os.path.join(td, 'x.mat')
+                    raw = open(mp, 'rb').read()
+                    open(mp, 'wb').write(_edit_mat(mat, raw))
+                out = Kl.from_filename(path)
+                out.affine, out.header      # both are read eagerly; the data proxy is not used
+                return out
         fm = Ki.make_file_map()
         for k in fm:
             fm[k].fileobj = io.BytesIO()
         img.to_file_map(fm)
         if cls in SPM and mat != 'both':
-            if mat == 'none':
-                fm['mat'].fileobj = io.BytesIO()
-            else:
-                import scipy.io as sio
-                fm['mat'].fileobj.seek(0)
-                mats = sio.loadmat(io.BytesIO(fm['mat'].fileobj.read()))
-                out = io.BytesIO()
-                if mat == 'monly':
-                    sio.savemat(out, {'M': mats['M']}, format='4')
-                elif mat == 'matonly':
-                    sio.savemat(out, {'mat': mats['mat']}, format='4')
-                elif mat == 'mat3d':
-                    stack = np.stack([mats['mat'], mats['mat'] * 2.0 + 1.0], axis=2)
-                    sio.savemat(out, {'mat': stack, 'M': mats['M']}, format='5')
-                else:
-                    raise ValueError(mat)
-                fm['mat'].fileobj = out
+            fm['mat'].fileobj.seek(0)
+            fm['mat'].fileobj = io.BytesIO(_edit_mat(mat, fm['mat'].fileobj.read()))
         for k in fm:
             fm[k].fileobj.seek(0)
         return Kl.from_file_map(fm)
@@ -458,7 +535,8 @@ def impl_rt(case):
     try:
         with warnings.catch_warnings():
             warnings.simplefilter('ignore')
-            img = roundtrip(cls, shape, A, hdr, d['mat'], flips_of(d), d.get('flhow', 'sub'), ex)
+            img = roundtrip(cls, shape, A, hdr, d['mat'], flips_of(d), d.get('flhow', 'sub'), ex,
+                            d.get('route', 'ctor'), d.get('hist'))
     except Exception as e:
         ex['err'] = repr(e)
         return errname(e)
@@ -583,10 +661,12 @@ def store_round(cls, A):
 QTOL = 5e-11
 
 
-def check_qform_fields(cls, A, ex):
+def check_qform_fields(cls, A, ex, pcls=None):
     """stored quatern/pixdim/qoffset within 2 storage ulps of the ideal decomposition of A, and the affine
-    rebuilt by the loader equal to the exact evaluation of the stored fields"""
-    prec = (lambda v: float(np.spacing(abs(float(v))))) if cls == 'N2' else ulp32
+    rebuilt by the loader equal to the exact evaluation of the stored fields.  `pcls`: the class whose field
+    precision the values went through (a NIfTI-1 header converted for a NIfTI-2 image holds float32 values)"""
+    pcls = pcls or cls
+    prec = (lambda v: float(np.spacing(abs(float(v))))) if pcls == 'N2' else ulp32
     qf = ex['qfields']
     zs = col_norms(A)
     R = [[F(A[i, j]) / zs[j] for j in range(3)] for i in range(3)]
@@ -611,7 +691,7 @@ def check_qform_fields(cls, A, ex):
     for k in range(3):
         if abs(float(F(qf['pixdim'][k + 1]) - zs[k])) > 2 * prec(float(zs[k])) + 1e-15 * float(zs[k]):
             return f'stored pixdim[{k + 1}]={qf["pixdim"][k + 1]!r} differs from column norm {float(zs[k])!r} by more than 2 ulps'
-        if F(qf['qoff'][k]) != F(store_round(cls, A)[k, 3]):
+        if F(qf['qoff'][k]) != F(store_round(pcls, A)[k, 3]):
             return f'stored qoffset[{k}]={qf["qoff"][k]!r} is not the rounded translation {A[k, 3]!r}'
     # exact evaluation of the stored fields
     b, c, dd = st
@@ -723,6 +803,16 @@ def oracle_rt(case, out):
         sig = 'raises'
         if bad_codes and out == 'ERR:KeyError':
             return None          # a code outside the standard table is refused by set_sform / set_qform
+        if out == 'ERR:ValueError' and 'w2 should be positive' in err and cls == 'N2' and src in ('N1', 'N1P') \
+                and nhdr is not None and nhdr['q'][1] is not None and std_code(nhdr['q'][0]):
+            # narrow: the float32 quaternion of the NIfTI-1 header really is a hair longer than 1
+            try:
+                h1 = build_header(src, shape, {k: v for k, v in nhdr.items() if k != 'from'})
+                n2 = sum(F(h1[k].item()) ** 2 for k in ('quatern_b', 'quatern_c', 'quatern_d'))
+                if 0 < n2 - 1 < Fr(1, 10 ** 6):
+                    sig = SIG_N1N2
+            except Exception:
+                pass
         return tag(sig, f'{cls}: save/load of a non-singular affine raised {out} ({err[:120]})')
     if bad_codes:
         return tag('xform-code:invalid-accepted', f'{cls}: header accepted the invalid xform code(s) {bad_codes}')
@@ -743,6 +833,16 @@ def oracle_rt(case, out):
             return tag('xform-code:not-preserved',
                        f'{cls}: header saved with sform/qform codes {want_s}/{want_q} ({d["hdr"]["s"][0]!r}/'
                        f'{d["hdr"]["q"][0]!r}) reloads with {ex["sc"]}/{ex["qc"]}')
+        # ... and so must the rotation + zoom (+ reflection) the user wrote to the qform under a non-zero code: the
+        # header is kept, whatever route (own class, header of / conversion from another NIfTI flavour) it took
+        qa = d['hdr']['q'][1]
+        # (a conversion resets the zooms of axes the data does not have: only volumes are compared then)
+        if want_q and qa is not None and is_rot_zoom(mat_of(qa)) and (len(shape) >= 3 or src == cls):
+            pcls = 'N2' if (src == 'N2' and cls == 'N2') else 'N1'
+            bad = check_qform_fields(cls, mat_of(qa), ex, pcls)
+            if bad:
+                return tag('nifti:kept-qform', f'{cls} (header of {src}, route {d.get("route", "ctor")}): qform written '
+                                               f'with code {want_q} does not read back: {bad}')
 
     def classify(msg, default):
         # finding (i): a header was supplied whose affine (as the image class sees it, under the x-flip flag in
@@ -916,22 +1016,35 @@ def signature(case, what):
     return 'C04:' + case.data.get('op', '?')
 
 
+def _subst_affine(h, A, B):
+    """the header spec with every affine equal to the image affine A replaced by B (the relation between image
+    affine and header affine is what a failure depends on: a shrink must not change it)"""
+    if h is None:
+        return None
+    out = dict(h)
+    for k in ('q', 's'):
+        if k in out and out[k][1] is not None and list(out[k][1]) == list(A):
+            out[k] = [out[k][0], list(B)]
+    if 'a' in out and list(out['a']) == list(A):
+        out['a'] = list(B)
+    return out
+
+
 def shrink_candidates(case):
     d = case.data
     if d['op'] != 'rt':
         return
     A = list(d['A'])
-    if d['mat'] != 'both' and d['cls'] in SPM:
-        pass
+    rest = (d['stream'], d['exact'], d['line'], d.get('fl', 'TTT'), d.get('flhow', 'sub'), d.get('route', 'ctor'))
+    if d.get('hist'):
+        yield mk_rt(d['cls'], d['shape'], A, d['hdr'], d['mat'], *rest, d['hist'][1:])
     if len(d['shape']) != 3 and d['cls'] != 'MGH':
-        yield mk_rt(d['cls'], (d['shape'] + [2, 2, 2])[:3], A, d['hdr'], d['mat'], d['stream'], d['exact'], d['line'],
-                    d.get('fl', 'TTT'), d.get('flhow', 'sub'))
+        yield mk_rt(d['cls'], (d['shape'] + [2, 2, 2])[:3], A, d['hdr'], d['mat'], *rest, d.get('hist'))
     for k in (3, 7, 11):
         if A[k] != 0:
             B = list(A)
             B[k] = 0.0
-            yield mk_rt(d['cls'], d['shape'], B, d['hdr'], d['mat'], d['stream'], d['exact'], d['line'],
-                        d.get('fl', 'TTT'), d.get('flhow', 'sub'))
+            yield mk_rt(d['cls'], d['shape'], B, _subst_affine(d['hdr'], A, B), d['mat'], *rest, d.get('hist'))
 
 
 # ------------------------------------------------------------------ generators
@@ -989,6 +1102,14 @@ def exact_affine(rng, rots=None, sheared=False):
     else:
         R = rng.choice(rots if rots is not None else SP)
         z = [float(2 ** rng.randrange(-6, 7)) for _ in range(3)]
+        zm = rng.random()
+        if zm < 0.08:        # micrometre voxels in mm (2^-20 ~ 1e-6): |det| far below any absolute tolerance
+            z = [float(2 ** rng.randrange(-20, -7)) for _ in range(3)]
+        elif zm < 0.14:      # huge
+            z = [float(2 ** rng.randrange(8, 21)) for _ in range(3)]
+        elif zm < 0.2:       # mixed magnitudes
+            z = [float(2 ** rng.choice([rng.randrange(-20, -7), rng.randrange(-6, 7), rng.randrange(8, 21)]))
+                 for _ in range(3)]
         if rng.random() < 0.3:
             z = [z[0]] * 3
         M = R * np.array(z)
@@ -1332,6 +1453,9 @@ def general_affine(rng, shear=False, p180=0.15):
     zr = rng.random()
     lo, hi = (-6, 6) if zr < 0.2 else (-1.5, 1.5)
     z = np.array([10.0 ** rng.uniform(lo, hi) for _ in range(3)])
+    if zr > 0.9:         # all three tiny (micrometres in mm) or all three huge
+        e = rng.choice([-6, -5, -4, -3, 3, 4, 5])
+        z = np.array([10.0 ** (e + rng.uniform(0, 1)) for _ in range(3)])
     if rng.random() < 0.3:
         z[:] = z[0]
     if rng.random() < 0.4:
@@ -1378,6 +1502,80 @@ def general_case(rng, cls):
     # the model has executable float32 rounding, so the sform path is compared bit for bit on general affines too
     line = cls in NIFTI
     return mk_rt(cls, shape, aff12_of(A), None, mat, 'general', exact=False, line=line, fl=fl, flhow=how)
+
+
+NIFTI_ROUTES = [('N1', 'N1P'), ('N1P', 'N1'), ('N1', 'N2'), ('N2', 'N1'), ('N1P', 'N2'), ('N2', 'N1P'),
+                ('N1', 'N1'), ('N2', 'N2'), ('N1P', 'N1P')]
+SC_QC = [(s_, q_) for s_ in (0, 1, 2, 3, 4, 5) for q_ in (0, 1, 2, 3, 4, 5) if s_ or q_]
+
+
+def xclass_general_case(rng, k):
+    """class conversion route x NIfTI flavour pair x handedness x (sform, qform) code pair, general rotation + zoom
+    (+ reflection) affines incl. exact 180 degree turns and tiny / huge zooms.  The source header holds the image
+    affine in the slot `get_best_affine` selects, so it is kept on every route: codes, sform and qform (quaternion,
+    pixdim incl. qfac, offsets) must arrive in the file.  `k` walks the pairs and code pairs systematically."""
+    src, cls = NIFTI_ROUTES[k % len(NIFTI_ROUTES)]
+    sc, qc = SC_QC[(k // len(NIFTI_ROUTES) + k) % len(SC_QC)]
+    shape = [rng.randrange(1, 9) for _ in range(3)] + ([rng.randrange(1, 4)] if rng.random() < 0.2 else [])
+    A = general_affine(rng, p180=0.3)
+    if rng.random() < 0.5:          # handedness: half left-handed (qfac = -1), whatever general_affine drew
+        if (np.linalg.det(A[:3, :3]) < 0) != (k % 2 == 0):
+            A[:3, rng.randrange(3)] *= -1
+    r = rng.random()
+    sa = aff12_of(A) if sc else (None if r < 0.5 else aff12_of(general_affine(rng)))
+    qa = aff12_of(A) if (qc or r < 0.7) else None
+    if sc and qc and r < 0.25:
+        qa = aff12_of(general_affine(rng, p180=0.3))       # a qform that says something else than the sform
+    hdr = {'q': [code_tok(rng, qc), qa], 's': [code_tok(rng, sc), sa]}
+    if src != cls:
+        hdr['from'] = src
+        route = rng.choice(['ctor', 'from_image', 'from_image'] +
+                           (['save_ext'] if {src, cls} == {'N1', 'N1P'} else []))
+    else:
+        route = rng.choice(['from_image', 'ctor'])
+    return mk_rt(cls, shape, aff12_of(A), rand_end(rng, hdr), 'both', 'general-xclass', exact=False, line=False,
+                 route=route)
+
+
+def xfamily_route_case(rng):
+    """conversions between format families through `from_image` / `nib.save` to another extension"""
+    src, cls = rng.choice([('N1', 'MGH'), ('MGH', 'N1'), ('AN', 'N1'), ('S99', 'N1'), ('N1', 'AN'), ('N1', 'S99'),
+                           ('N2', 'MGH'), ('MGH', 'N2'), ('S2', 'N1P'), ('N1P', 'S2'), ('AN', 'S99'), ('S99', 'AN'),
+                           ('MGH', 'S99'), ('AN', 'MGH')])
+    shape = [rng.randrange(1, 8) for _ in range(3)]
+    A = general_affine(rng, shear=(cls in NIFTI or cls in SPM) and rng.random() < 0.3)
+    if src in NIFTI:
+        hdr = {'q': [0, None], 's': [code_tok(rng, rng.choice([1, 2, 4])), aff12_of(A)], 'from': src}
+    elif src == 'MGH':
+        hdr = {'a': aff12_of(A), 'from': src}
+    else:
+        n = np.sqrt((A[:3, :3] ** 2).sum(axis=0))
+        hdr = {'z': [float(np.float32(v)) for v in n], 'o': [0, 0, 0], 'from': src}
+    uniq = {'N1': True, 'MGH': True}.get(cls, False)       # the extension alone selects the class in nib.save
+    route = 'save_ext' if (uniq and rng.random() < 0.5) else 'from_image'
+    return mk_rt(cls, shape, aff12_of(A), hdr, 'both', 'general-xfamily', exact=False, line=False, route=route)
+
+
+HIST_FAMILY = {'.img': ['AN', 'S99', 'S2', 'N1P', 'S99', 'S2'], '.nii': ['N1', 'N2', 'N1'], '.mgh': ['MGH']}
+
+
+def with_history(rng, case):
+    """the same case, saved to file names that earlier saves (other affine, other class of the same extension
+    family, with / without `.mat` sidecar) have already used"""
+    d = case.data
+    if d['op'] != 'rt' or d.get('route', 'ctor') != 'ctor' or 'hist' in d:
+        return None
+    cls = d['cls']
+    hist = []
+    for _ in range(rng.choice([1, 1, 2])):
+        c0 = rng.choice(HIST_FAMILY[FILE_EXT[cls]])
+        s0 = rand_shape(rng, c0) if rng.random() < 0.5 else d['shape']
+        if c0 == 'MGH':
+            s0 = (list(s0) + [2, 2, 2])[:3]
+        A0 = general_affine(rng, shear=c0 != 'MGH') if rng.random() < 0.5 else exact_affine(rng)
+        hist.append([c0, s0, aff12_of(A0)])
+    return mk_rt(cls, d['shape'], d['A'], d['hdr'], d['mat'], d['stream'] + '+hist', d['exact'], d['line'],
+                 d.get('fl', 'TTT'), d.get('flhow', 'sub'), 'ctor', hist)
 
 
 def component_cases(rng, tier):
@@ -1541,7 +1739,30 @@ def cases(rng, tier):
         A, _ = variant(rng, D)
         mat = rng.choice(MATMODES) if cls in SPM else 'both'
         out.append(mk_rt(cls, shape, aff12_of(A), None, mat, 'exact-default', fl=fl, flhow=how))
-    return out
+    # class conversion routes (from_image / header= of another flavour / nib.save to another extension) x handedness
+    # x every (sform, qform) code pair, general affines: oracle only
+    n_x = {'quick': 420, 'thorough': 6000, 'search': 840}[tier]
+    k0 = rng.randrange(len(NIFTI_ROUTES) * len(SC_QC))
+    for k in range(n_x):
+        out.append(xclass_general_case(rng, k0 + k))
+    for _ in range(n_x // 4):
+        out.append(xfamily_route_case(rng))
+    # save HISTORIES: the same cases written over earlier images on the same file names (real files).  Every
+    # no-header / default-affine SPM case (the sidecar of the earlier image must not survive) and a sample of the rest
+    extra = []
+    for c in out:
+        d = c.data
+        if d.get('op') != 'rt' or d.get('stream') == 'finding':
+            continue
+        p = 0.5 if (d['cls'] in SPM and d['stream'] in ('exact-default', 'exact-perm')) else \
+            (0.12 if d['cls'] in SPM or d['cls'] == 'AN' else 0.03)
+        if tier == 'thorough':
+            p /= 4
+        if rng.random() < p:
+            h = with_history(rng, c)
+            if h is not None:
+                extra.append(h)
+    return out + extra
 
 
 # ------------------------------------------------------------------ generated constants (Leg T)
@@ -1602,6 +1823,66 @@ def update_header_tolerances():
     return tol['rtol'], tol['atol']
 
 
+# ---- decision skeletons (Leg T): the body of a method of the working tree as a Lean `Nb.C04.Sk` term
+
+def _one(n):
+    import ast
+    return re.sub(r'\s+', ' ', ast.unparse(n)).strip()
+
+def _lean_str(s):
+    return '"' + s.replace('\\', '\\\\').replace('"', '\\"') + '"'
+
+def sk_of(stmts, k):
+    import ast
+    """Lean term (type Nb.C04.Sk) of a statement list followed by the continuation term `k`"""
+    if not stmts:
+        return k
+    st, rest = stmts[0], stmts[1:]
+    if isinstance(st, ast.Expr) and isinstance(st.value, ast.Constant) and isinstance(st.value.value, str):
+        return sk_of(rest, k)                       # docstring
+    if isinstance(st, (ast.Import, ast.ImportFrom, ast.Pass)):
+        return sk_of(rest, k)
+    if isinstance(st, ast.Return):
+        return '(.ret %s)' % _lean_str('' if st.value is None else _one(st.value))
+    if isinstance(st, ast.Raise):
+        exc = st.exc.func if isinstance(st.exc, ast.Call) else st.exc
+        return '(.raise %s)' % _lean_str('' if exc is None else _one(exc))
+    if isinstance(st, ast.If):
+        kk = sk_of(rest, k)
+        return '(.ite %s %s %s)' % (_lean_str(_one(st.test)), sk_of(st.body, kk), sk_of(st.orelse, kk))
+    if isinstance(st, ast.Try):
+        # try: <one statement> except <Exc>: <handler>   ->  ite "try-raises <Exc>: <stmt>" handler (act stmt; rest)
+        if len(st.body) != 1 or len(st.handlers) != 1 or st.orelse or st.finalbody or st.handlers[0].type is None:
+            raise ValueError('try statement of another shape: ' + _one(st)[:80])
+        kk = sk_of(rest, k)
+        body = _one(st.body[0])
+        return '(.ite %s %s (.act %s %s))' % (_lean_str('try-raises %s: %s' % (_one(st.handlers[0].type), body)),
+                                              sk_of(st.handlers[0].body, kk), _lean_str(body), kk)
+    if isinstance(st, ast.With):
+        head = 'with ' + ', '.join(_one(i) for i in st.items)
+        return '(.act %s %s)' % (_lean_str(head), sk_of(st.body, sk_of(rest, k)))
+    if isinstance(st, (ast.Assign, ast.AugAssign, ast.AnnAssign, ast.Expr, ast.Assert)):
+        return '(.act %s %s)' % (_lean_str(_one(st)), sk_of(rest, k))
+    raise ValueError('statement outside the skeleton fragment: ' + _one(st)[:80])
+
+def fn_skeleton(fn):
+    return sk_of(fn.body, '(.ret "")')
+
+
+SKELETONS = [('skBestAffine', 'nibabel/nifti1.py', 'Nifti1Header', 'get_best_affine'),
+             ('skUpdateHeader', 'nibabel/spatialimages.py', 'SpatialImage', 'update_header'),
+             ('skSpmWrite', 'nibabel/spm99analyze.py', 'Spm99AnalyzeImage', 'to_file_map'),
+             ('skSpmRead', 'nibabel/spm99analyze.py', 'Spm99AnalyzeImage', 'from_file_map')]
+
+
+def skeleton_source():
+    out = []
+    for name, rel, cname, fname in SKELETONS:
+        out.append(f'/-- body of `{cname}.{fname}` ({rel}) of the working tree -/\n'
+                   f'def {name} : Sk :=\n  {fn_skeleton(_class_fn(_src_tree(rel), cname, fname))}\n')
+    return ''.join(out)
+
+
 def regen():
     import inspect
     import nibabel as nib
@@ -1617,7 +1898,8 @@ def regen():
     alias = {c: sorted(str(k) for k, v in xform_codes.field1.items() if isinstance(k, str) and int(v) == c)
              for c in codes}
     table = ', '.join('(%d, [%s])' % (c, ', '.join('"%s"' % a for a in alias[c])) for c in codes)
-    src = ('/-! GENERATED from /repo by harness/props/c04.py (regen) — do not edit by hand. -/\n'
+    src = ('import NibabelModel.Model.C04\n'
+           '/-! GENERATED from /repo by harness/props/c04.py (regen) — do not edit by hand. -/\n'
            'namespace Nb.C04.Gen\n'
            f'def n1QuatThr : Rat := {lit(nib.Nifti1Header.quaternion_threshold)}\n'
            f'def n2QuatThr : Rat := {lit(nib.Nifti2Header.quaternion_threshold)}\n'
@@ -1634,6 +1916,9 @@ def regen():
            '/-- `nibabel.nifti1.xform_codes`: every valid code with its string aliases -/\n'
            f'def xformTable : List (Nat × List String) := [{table}]\n'
            'def xformCodes : List Nat := xformTable.map (·.1)\n'
+           + skeleton_source() +
            'end Nb.C04.Gen\n')
     write_if_changed(os.path.join(LEAN, 'NibabelModel', 'Generated', 'C04.lean'), src)
-    return []
+    return ['Nb.C04.Gen sk* (bodies of get_best_affine / update_header / Spm99AnalyzeImage.to_file_map / from_file_map from '
+            'the AST) read through atomTable equal the decision models: skeletons_agree, best_affine_skeleton, '
+            'update_header_skeleton, spm_write_skeleton, spm_read_skeleton']
